@@ -107,6 +107,16 @@ pub fn render(v: &Value) -> String {
     "huge_index" => { doc.insert("transform".into(), tr(json!({"substring": {"source": "$A", "startChar": 2147483647i64, "endChar": -2147483648i64}}))); }
     "self_cycle" => { doc.insert("transform".into(), tr(json!({"substring": {"source": "$X"}}))); }
     "unknown_kind" => { doc.insert("transform".into(), tr(json!({"explode": {"source": "$A"}}))); }
+    "convert_snake" => { doc.insert("transform".into(), tr(json!({"convert": {"source": "$A", "toCase": "snakeCase"}}))); }
+    "convert_camel" => { doc.insert("transform".into(), tr(json!({"convert": {"source": "$A", "toCase": "camelCase"}}))); }
+    "convert_kebab" => { doc.insert("transform".into(), tr(json!({"convert": {"source": "$A", "toCase": "kebabCase"}}))); }
+    "convert_pascal" => { doc.insert("transform".into(), tr(json!({"convert": {"source": "$A", "toCase": "pascalCase"}}))); }
+    "convert_upper" => { doc.insert("transform".into(), tr(json!({"convert": {"source": "$A", "toCase": "upperCase"}}))); }
+    "convert_capitalize" => { doc.insert("transform".into(), tr(json!({"convert": {"source": "$A", "toCase": "capitalize"}}))); }
+    "convert_separated" => { doc.insert("transform".into(), tr(json!({"convert": {"source": "$A", "toCase": "snakeCase", "separatedBy": ["caseChange", "underscore", "dash"]}}))); }
+    "substring_negative" => { doc.insert("transform".into(), tr(json!({"substring": {"source": "$A", "startChar": -2, "endChar": -1}}))); }
+    "replace_valid" => { doc.insert("transform".into(), tr(json!({"replace": {"source": "$A", "replace": "(?<first>.)", "by": "$first$first"}}))); }
+    "chain" => { doc.insert("transform".into(), json!({"X": {"convert": {"source": "$A", "toCase": "kebabCase"}}, "Y": {"substring": {"source": "$X", "startChar": 1}}, "Z": {"convert": {"source": "$Y", "toCase": "camelCase"}}})); }
     _ => {}
   }
   match s(v, "fix").as_str() {
@@ -183,7 +193,10 @@ fn classify(code: i32, stderr: &str) -> &'static str {
   }
 }
 
-const TEXTS: [(&str, &str); 3] = [
+const TEXTS: [(&str, &str); 4] = [
+  // captured texts that stress per-character work: upper/lower runs with multi-byte letters, title-case digraphs,
+  // letters whose case mapping changes length, combining marks, separators at the edges
+  ("d.js", "foo(ÉÀb); foo(XMLÉb); foo(ǅemal); foo(ßtraSSe); foo(İi̇I); foo(aB_c__D); foo(_); foo($x); foo(ÀÉ); foo(é); foo(x̃Ỹz); foo(ＡＢc); foo(\"ÉÀb-Çd_ÊF\");\n"),
   ("a.js", "foo(b1); foo(bar, 1); foo(\"é🦀\", [1, 2, 3]); [, 2, x]; foo([1, [2, 3]]);\nclass A { foo(q) {} }\n"),
   ("b.js", "foo(\nfoo(b"),
   ("c.js", ";"),
